@@ -54,6 +54,26 @@ def swap_names(text, a, b, quoted=False):
     return re.sub(r"\b(%s|%s)\b" % (a, b), lambda m: b if m.group(1) == a else a, text)
 
 
+STRING_BODIES = ['%s\\"', '\\"%s', 'a\\"%s\\\\', '%s\\\\', "%s'", '\\"']
+
+
+def string_twin(text, exp, k):
+    """(text', tree', literal) with one quoted literal of the text (not the version) replaced, or None"""
+    import re
+    lits = [m for m in re.findall(r'"([A-Za-z0-9_/ .]+)"', text) if m != "3"]
+    bare = re.sub(r'"[^"]*"', '""', text)
+    lits = [l for l in lits if not re.search(r"\b%s\b" % re.escape(l), bare)]
+    if not lits:
+        return None
+    old = lits[k % len(lits)]
+    body = STRING_BODIES[(k // 5) % len(STRING_BODIES)]
+    new = body % old if "%s" in body else body
+    dumped = json.dumps(exp)
+    if json.dumps(old) not in dumped:
+        return None
+    return (text.replace('"%s"' % old, '"%s"' % new), json.loads(dumped.replace(json.dumps(old), json.dumps(new))), new)
+
+
 def parse_text(text):
     """-> ("ok", normalized dict) | ("err", repr) | ("raised", msg)"""
     from fcp.parser import get_fcp_from_string
@@ -267,6 +287,20 @@ def run_c07(tier, seed):
                 if d3:
                     chk.violation("parser:tree-differs:renamed-twin:%s" % diff_class(d3),
                                   {"mode": "G", "text": swap_names(c["text"], "Ea", "Sa"), "at": d3[0], "expected": d3[1], "observed": d3[2]})
+        if ci % 5 == 0:
+            # the same description with one string literal given other CONTENTS (escaped quotes, backslashes, at its end and
+            # inside): the tree holds the characters between the outer quotes, whatever they are
+            tw = string_twin(c["text"], exp, ci)
+            if tw:
+                st4, got4 = parse_text(tw[0])
+                chk.count(1, traces=1)
+                if st4 != "ok":
+                    chk.violation("parser:%s-on-well-formed-text:string-contents" % st4, {"mode": "G", "text": tw[0], "observed": got4})
+                else:
+                    d4 = first_diff(tw[1], got4)
+                    if d4:
+                        chk.violation("parser:tree-differs:string-contents:%s" % diff_class(d4),
+                                      {"mode": "G", "text": tw[0], "literal": tw[2], "at": d4[0], "expected": d4[1], "observed": d4[2]})
         if ci % 10 == 0:
             st2, got2 = parse_file(c["text"], chk.workdir)
             chk.count(1, traces=1)
